@@ -210,7 +210,7 @@ impl Decimal {
     { unimplemented!() }
     #[verifier::external_body]
     pub fn checked_sub(self, o: Decimal) -> (r: Option<Decimal>)
-        ensures r is Some ==> r->0.q@ == dsub(self.q@, o.q@) && !r->0.nz@ && r->0.w@ == (self.w@ || o.w@),
+        ensures r is Some ==> r->0.q@ == dsub(self.q@, o.q@) && (r->0.nz@ ==> self.nz@ || o.nz@) && r->0.w@ == (self.w@ || o.w@),
                 strict() && fits(dsub(self.q@, o.q@)) ==> r is Some,
     { unimplemented!() }
     #[verifier::external_body]
@@ -220,7 +220,7 @@ impl Decimal {
     { unimplemented!() }
     #[verifier::external_body]
     pub fn fract(&self) -> (r: Decimal)
-        ensures (r.q@ == 0) == is_whole(self.q@), !r.nz@
+        ensures (r.q@ == 0) == is_whole(self.q@), r.nz@ ==> self.nz@
     { unimplemented!() }
     #[verifier::external_body]
     pub fn zero() -> (r: Decimal) ensures r.q@ == 0, !r.w@, !r.nz@ { unimplemented!() }
@@ -232,14 +232,14 @@ impl Decimal {
     pub fn round_dp_with_strategy(&self, dp: u32, s: RoundingStrategy) -> (r: Decimal)
         ensures (dp == 0 && s is MidpointAwayFromZero) ==> r.q@ == of_int(round_half_away(self.q@)),
                 !(dp == 0 && s is MidpointAwayFromZero) ==> r.q@ == round_other(strategy_code(s), dp as int, self.q@),
-                !r.nz@, dp == 0 ==> !r.w@,
+                r.nz@ ==> self.nz@, dp == 0 ==> !r.w@,
     { unimplemented!() }
     // API not used by the pinned sources, modelled so that code which starts to use it is still decided
     #[verifier::external_body]
-    pub fn round(&self) -> (r: Decimal) ensures r.q@ == of_int(round_half_even(self.q@)), !r.nz@, !r.w@ { unimplemented!() }
+    pub fn round(&self) -> (r: Decimal) ensures r.q@ == of_int(round_half_even(self.q@)), r.nz@ ==> self.nz@, !r.w@ { unimplemented!() }
     #[verifier::external_body]
     pub fn round_dp(&self, dp: u32) -> (r: Decimal)
-        ensures dp == 0 ==> r.q@ == of_int(round_half_even(self.q@)) && !r.w@, dp != 0 ==> r.q@ == round_other(1, dp as int, self.q@), !r.nz@
+        ensures dp == 0 ==> r.q@ == of_int(round_half_even(self.q@)) && !r.w@, dp != 0 ==> r.q@ == round_other(1, dp as int, self.q@), r.nz@ ==> self.nz@
     { unimplemented!() }
     #[verifier::external_body]
     pub fn trunc(&self) -> (r: Decimal) ensures r.q@ == of_int(trunc_int(self.q@)) { unimplemented!() }
@@ -250,7 +250,7 @@ impl Decimal {
     #[verifier::external_body]
     pub fn abs(&self) -> (r: Decimal) ensures r.q@ == (if self.q@ >= 0 { self.q@ } else { -self.q@ }) { unimplemented!() }
     #[verifier::external_body]
-    pub fn checked_add(self, o: Decimal) -> (r: Option<Decimal>) ensures r is Some ==> r->0.q@ == self.q@ + o.q@ && !r->0.nz@ { unimplemented!() }
+    pub fn checked_add(self, o: Decimal) -> (r: Option<Decimal>) ensures r is Some ==> r->0.q@ == self.q@ + o.q@ && (r->0.nz@ ==> self.nz@ || o.nz@) { unimplemented!() }
     #[verifier::external_body]
     pub fn is_sign_positive(&self) -> (r: bool) ensures self.q@ > 0 ==> r, self.q@ < 0 ==> !r { unimplemented!() }
     #[verifier::external_body]
